@@ -146,4 +146,33 @@ theorem Inv.step_sc0 {c : Cfg} {o : Orders} {s : State} {m : Mem Loc} {t ch nb :
     subst hv
     exact Nat.mul_le_mul_right _ this
 
+/-- Accessor::release: the table load of `unregister_accessor`; an open region is closed next -/
+theorem Inv.step_rl0 {c : Cfg} {o : Orders} {s : State} {m : Mem Loc} {t i : Nat}
+    (inv : Inv c o s) (hp : s.pc t = .rl0 i) (q : QuietMem s.mem m t) :
+    Inv c o (if s.lt i ≠ 0 then { s with mem := m, pc := upd s.pc t (.rl1 i) }
+             else { s with mem := m, pc := upd s.pc t (.rl2 i) }) := by
+  have hpc := inv.pcs t; unfold PcOK at hpc; rw [hp] at hpc
+  split
+  · rename_i hlt
+    apply inv.quiet_pc (s' := { s with mem := m, pc := upd s.pc t (.rl1 i) }) (t := t) q <;> try rfl
+    · intro t' e; rfl
+    · intro t' e; simp [e]
+    · intro j; simp [hp, Pc.crAt]
+    · intro j; simp [hp, Pc.lkAt]
+    · intro j; simp [hp, Pc.lk3At]
+    · simp [PcOK]; exact ⟨hpc, by omega⟩
+  · rename_i hlt
+    have hlt0 : s.lt i = 0 := by omega
+    have hfv : s.fv i = none := by
+      cases h : s.fv i with
+      | none => rfl
+      | some V => have := (inv.region i V h).depth; omega
+    apply inv.quiet_pc (s' := { s with mem := m, pc := upd s.pc t (.rl2 i) }) (t := t) q <;> try rfl
+    · intro t' e; rfl
+    · intro t' e; simp [e]
+    · intro j; simp [hp, Pc.crAt]
+    · intro j; simp [hp, Pc.lkAt]
+    · intro j; simp [hp, Pc.lk3At]
+    · simp [PcOK]; exact ⟨hpc, hlt0, hfv⟩
+
 end Babylon.Epoch
